@@ -1,424 +1,1254 @@
 """C53 - client replay runs queued flows sequentially and cleans up.
 
-Decided from the source of mitmproxy/addons/clientplayback.py:
-  R53.1 sequencing (path enumeration of the ``while True`` body of ClientPlayback.playback, client_replay_concurrency decided per
-        cell): with a concurrency other than -1 every iteration that dequeued a flow awaits ``h.replay()`` (never a spawned task)
-        before ``queue.task_done()`` / the next ``queue.get()``; the dequeued flow is published in ``self.inflight`` for the
-        duration and cleared afterwards; ReplayHandler.replay ends with ``await self.done.wait()`` after starting the layer;
-        handle_hook sets ``done`` exactly for HttpResponseHook / HttpErrorHook (every such path, no other hook), after the addon
-        hook ran, the flow was resumed (``await <flow>.wait_for_resume()`` precedes ``done.set()`` on every completing path whose
-        hook data is a flow, and is never awaited after it: a flow intercepted in its response / error hook is still live and
-        editable, its replay has not finished, so the next queued request must not be sent yet) and the server transports
-        were cancelled and awaited.
-  R53.2 admission and cleanup: ClientPlayback.check (evaluated on the AST over 8 cells) refuses live, in-flight, intercepted,
-        request-less, content-less, WebSocket and non-HTTP flows and admits the plain replayable flow; start_replay queues a flow
-        only on paths where check() returned nothing, after backup() and before nothing else touched it; the backup call, as
-        start_replay makes it (Flow.backup resolved along HTTPFlow's MRO and enumerated with the call's actual arguments bound),
-        stores a snapshot only on paths that established that no backup exists - check() does not refuse a flow that is already
-        queued, so a second submission must keep the first (pre-replay) snapshot, otherwise stop_replay's revert() "restores"
-        the prepared state (response None, is_replay set); stop_replay drains the
-        queue completely (only QueueEmpty leaves the loop) and reverts every dequeued flow.
-NOT decided: asyncio scheduling, what happens inside the proxy core between Start and the final hook (C03), Flow.backup/revert
-themselves (C40).
+Decided by INTERPRETING mitmproxy/addons/clientplayback.py (``mitmlint/pyint.py`` + coroutines, class ``_Sim`` below) in small scripted
+worlds and comparing what happens with a reference written from the property text.  Nothing is matched by statement shape: helpers are
+followed, renamed locals / inverted branches / early returns / merged loops / logging / assertions are interpreted like the original.
+
+The world (``_World``) models exactly the library surface the addon talks to:
+  * ``asyncio``: Queue (FIFO, ``get`` suspends when empty), Event, tasks (``create_task`` / ``ensure_future`` / mitmproxy's
+    ``asyncio_utils.create_task`` spawn an activity that runs at the next suspension point), ``wait`` / ``gather``;
+  * the proxy core behind a replay handler: ``server_event(Start)`` starts a scripted core that later delivers a sequence of hooks to the
+    handler's *interpreted* ``handle_hook`` (e.g. request-headers, request, response-headers, then response or error);
+  * ``ctx.master.addons.handle_lifecycle`` (may intercept the flow), ``Flow.wait_for_resume`` (resumes it), the server transports
+    (``ConnectionIO.handler`` tasks that can be cancelled and awaited), ``Flow.get_state`` / ``set_state`` (faithful snapshot / restore;
+    ``Flow.backup`` / ``revert`` themselves are interpreted from mitmproxy/flow.py along HTTPFlow's MRO).
+The addon object is built by its own ``__init__`` and started by its own ``running()`` (so the playback coroutine, the queue and the
+in-flight marker are found by role, not by name); a replay handler is whatever subclass of proxy.server.ConnectionHandler the loop
+constructs from the dequeued flow (its ``__init__`` is not interpreted: attributes assigned from a parameter or from ``asyncio.Event()``
+are taken from it, everything else is opaque).
+
+  R53.1 sequencing.  With client_replay_concurrency 1 and three queued flows: every flow is dequeued in queue order, a handler is built
+        from exactly that flow, its replay is awaited (never spawned) and the next ``queue.get()`` / ``task_done()`` happens only after
+        the handler signalled completion; while a flow is replayed ``check()`` refuses it as in flight, once the loop is idle it does not;
+        the awaited handler coroutine starts the layer and returns only after completion was signalled and the core delivered its last
+        hook; concurrency -1 does spawn (keeps the option decision non-vacuous).  ``handle_hook`` is run for every hook class of
+        proxy/layers/http/_hooks.py and proxy/server_hooks.py in worlds {with / without server transports} x {flow intercepted in the
+        hook or not}: completion is signalled exactly for HttpResponseHook / HttpErrorHook (every world), after the addons handled the
+        hook, after the flow was resumed (``wait_for_resume`` awaited between the addon hook and the signal, the flow no longer
+        intercepted, never awaited after the signal: a flow intercepted in its response / error hook is still live and editable, so the
+        next queued request must not be sent yet) and after every server transport task was cancelled and awaited.
+  R53.2 admission and cleanup.  ``ClientPlayback.check`` over 9 flows (+ the in-flight cell from the R53.1 run): live, intercepted,
+        request-less, content-less, WebSocket and non-HTTP (TCP / UDP / DNS) flows are refused, the plain flow is admitted;
+        ``start_replay`` over a mixed submission queues exactly the admitted flows; ``start_replay`` followed by ``stop_replay`` leaves
+        every queued flow in its pre-replay state (backup before the first modification, revert of every dequeued flow), also when a
+        flow was submitted twice while still queued (the second backup must keep the first snapshot - check() does not refuse a flow that
+        is already queued - otherwise stop_replay's revert() "restores" the prepared state: response None, is_replay set);
+        ``stop_replay`` drains the queue completely (0, 1, 3 queued flows).
+NOT decided: asyncio scheduling orders other than the cooperative one modelled, what happens inside the proxy core between Start and
+the final hook (C03), Flow.get_state / set_state (C40), ReplayHandler.__init__.
 """
 
 from __future__ import annotations
 
 import ast
+import asyncio as _stdlib_asyncio  # exception class hierarchy of asyncio's own exceptions only (stdlib, nothing of the repository)
+import builtins
 
 from ..core import AnalysisError
 from ..core import norm
 from ..model import attr_chain
-from ..model import call_name
-from ..model import eval_order
 from ..model import last_attr
-from ..model import stmts_of
-from ..paths import C
-from ..paths import GenericSpec
-from ..paths import index_of
-from ..paths import State
-from ..paths import UNKNOWN
+from ..pyint import _noop
+from ..pyint import _restore
+from ..pyint import _snapshot
+from ..pyint import ClassRef
+from ..pyint import Func
+from ..pyint import Interp
+from ..pyint import NullLog
+from ..pyint import Raised
+from ..pyint import Rec
 from ..selftest import Mutant
-from ..paths import traces_of
-from ._helpers_E import ESpec
-from ._helpers_E import fact
 from ._helpers_F import own_nodes
-from ._helpers_F import params_of
-from ._helpers_F import PureEval
-from ._helpers_F import Raised
-from ._helpers_F import StrictEngine
 
 PROP = "C53"
 REG = {
     "strength": "narrow",
-    "technique": "path enumeration of the playback loop body, of ReplayHandler.handle_hook / replay, of start_replay and stop_replay (exception edge "
-    "for QueueEmpty); decision table of ClientPlayback.check evaluated on the AST",
+    "technique": "interpretation (pyint + coroutines on a cooperative scheduler) of ClientPlayback (__init__, running, playback loop, check, start_replay, "
+    "stop_replay), of the replay handler's coroutine and handle_hook and of Flow.backup / revert in scripted worlds (model asyncio Queue / Event / tasks, "
+    "scripted proxy core delivering hooks, intercepting addons, server transports), compared with a reference written from the property text",
     "claim": "with concurrency 1 a dequeued flow is awaited to completion before the queue is touched again; completion is signalled exactly by the "
     "response / error hook after the flow was resumed and transports are closed; unreplayable flows are refused by check and never queued; queued flows are "
-    "backed up first by a call that never replaces an existing snapshot (Flow.backup enumerated with start_replay's arguments) and stop_replay reverts every one of them.",
-    "note": "Scheduling orders are not decided. Loops unrolled once.",
+    "backed up first by a call that never replaces an existing snapshot (Flow.backup interpreted as start_replay calls it) and stop_replay reverts every one of them.",
+    "note": "Scheduling orders other than the modelled cooperative one are not decided. Finite worlds: 3 queued flows, one hook script per world.",
 }
 
 F = "mitmproxy/addons/clientplayback.py"
+ADDON = "ClientPlayback"
+UTILS = "mitmproxy/utils/asyncio_utils.py"
+HOOK_FILES = ("mitmproxy/proxy/layers/http/_hooks.py", "mitmproxy/proxy/server_hooks.py")
+TERMINAL = ("HttpErrorHook", "HttpResponseHook")
+HTTPFLOW = ("mitmproxy/http.py", "HTTPFlow")
+OTHER_FLOWS = (("mitmproxy/tcp.py", "TCPFlow"), ("mitmproxy/udp.py", "UDPFlow"), ("mitmproxy/dns.py", "DNSFlow"))
 
 
-class Ev(GenericSpec):
-    """calls / awaits as ('call'|'await', dotted name), assignments as ('assign', target), conditions via ``conds``."""
+# ---------------------------------------------------------------------------------------------------
+# values of the model world
 
-    def __init__(self, conds=None, raises=None, env_values=None):
-        super().__init__(record_conds=True)
-        self._conds = conds or (lambda e: None)
-        self._raises = raises or (lambda st: [])
-        self._vals = env_values or {}
 
-    def value(self, expr, st, depth):
-        if isinstance(expr, ast.UnaryOp) and isinstance(expr.op, ast.USub) and isinstance(expr.operand, ast.Constant):
-            return C(-expr.operand.value)
-        ch = attr_chain(expr)
-        if ch in self._vals:
-            return st.get(self._vals[ch])
-        return super().value(expr, st, depth)
+class _Blocked(BaseException):
+    """the running activity waits for something that nothing in the world will ever provide (BaseException: like a cancellation it is
+    not caught by the interpreted ``except Exception``)"""
 
-    def events(self, node, st):
-        out = []
-        for n in eval_order(node):
-            if isinstance(n, ast.Await):
-                inner = n.value
-                out.append(("await", norm(inner.func) if isinstance(inner, ast.Call) else norm(inner)))
-            elif isinstance(n, ast.Call):
-                par = getattr(n, "_parent", None)
-                if isinstance(par, ast.Await):
-                    continue
-                out.append(("call", norm(n.func), tuple(norm(a) for a in n.args)))
-        if isinstance(node, ast.Assign):
-            for t in node.targets:
-                v = "None" if isinstance(node.value, ast.Constant) and node.value.value is None else norm(node.value)
-                out.append(("assign", norm(t), v))
-        return out
 
-    def cond_event(self, expr, value, st):
-        r = self._conds(expr)
-        if r:
-            return (r[0], value if r[1] else not value)
+class _Aw:
+    """a library awaitable: ``await`` runs ``run()`` in place"""
+
+    def __init__(self, run, what):
+        self.run, self.what = run, what
+
+
+class _Coro:
+    """a call of a repository coroutine function: nothing runs until it is awaited or handed to a task"""
+
+    def __init__(self, f, args, kwargs):
+        self.f, self.args, self.kwargs = f, args, kwargs
+        self.used = False
+
+    @property
+    def label(self):
+        return self.f.node.name
+
+
+class _Opaque:
+    """a value the world does not know: may be stored, passed on and formatted; deciding on it is an AnalysisError"""
+
+    def __init__(self, name):
+        self._n = name
+
+    def _no(self, *a, **k):
+        raise AnalysisError(f"client replay model: a decision depends on {self._n}, which the model world does not define")
+
+    __bool__ = __len__ = __iter__ = __eq__ = __ne__ = __lt__ = __gt__ = __le__ = __ge__ = __contains__ = __call__ = __getitem__ = _no
+    __hash__ = object.__hash__
+
+    def __repr__(self):
+        return f"<{self._n}>"
+
+    __str__ = __repr__
+
+    def __format__(self, spec):
+        return repr(self)
+
+
+class _Model:
+    """base of the library stand-ins: accepts abstract records as arguments; anything not modelled is an AnalysisError, never a guess"""
+
+    _pyint_accepts_abstract = True
+
+    def __getattr__(self, name):
+        if name.startswith("__"):
+            raise AttributeError(name)
+        raise AnalysisError(f"client replay model: {type(self).__name__.lstrip('_')}.{name} is not modelled")
+
+
+class _Event(_Model):
+    def __init__(self, world):
+        self._w = world
+        self._v = False
+        self.owner = None
+        world.events.append(self)
+
+    def set(self):
+        self._v = True
+        self._w.on_set(self)
+
+    def clear(self):
+        self._v = False
+
+    def is_set(self):
+        return self._v
+
+    def wait(self):
+        return _Aw(lambda: self._w.wait_event(self), "Event.wait")
+
+
+class _Queue(_Model):
+    def __init__(self, world):
+        self._w = world
+        self.items = []
+        self.unfinished = 0
+        world.queues.append(self)
+
+    def preload(self, items):
+        self.items.extend(items)
+        self.unfinished += len(items)
+
+    def put_nowait(self, item):
+        self.items.append(item)
+        self.unfinished += 1
+        self._w.ev("put", item)
+
+    def put(self, item):
+        return _Aw(lambda: self.put_nowait(item), "Queue.put")
+
+    def get_nowait(self):
+        if not self.items:
+            raise Raised("QueueEmpty")
+        item = self.items.pop(0)
+        self._w.ev("get_nowait", item)
+        return item
+
+    def get(self):
+        return _Aw(lambda: self._w.queue_get(self), "Queue.get")
+
+    def task_done(self):
+        if self.unfinished <= 0:
+            raise Raised("ValueError", "task_done() called too many times")
+        self.unfinished -= 1
+        self._w.ev("task_done")
+
+    def qsize(self):
+        return len(self.items)
+
+    def empty(self):
+        return not self.items
+
+    def full(self):
+        return False
+
+
+class _Loop(_Model):
+    def __init__(self, world):
+        self._w = world
+
+    def create_task(self, coro, *, name=None, context=None):
+        return self._w.spawn(coro)
+
+    def time(self):
+        return 0.0
+
+
+class _Asyncio(_Model):
+    QueueEmpty, QueueFull, CancelledError, TimeoutError, InvalidStateError = (("$exc", n) for n in ("QueueEmpty", "QueueFull", "CancelledError", "TimeoutError", "InvalidStateError"))
+    FIRST_COMPLETED, FIRST_EXCEPTION, ALL_COMPLETED = "FIRST_COMPLETED", "FIRST_EXCEPTION", "ALL_COMPLETED"
+
+    def __init__(self, world):
+        self._w = world
+
+    def Event(self):
+        return _Event(self._w)
+
+    def Queue(self, maxsize=0):
+        return _Queue(self._w)
+
+    def create_task(self, coro, *, name=None, context=None):
+        return self._w.spawn(coro)
+
+    def ensure_future(self, coro, *, loop=None):
+        return self._w.spawn(coro)
+
+    def run_coroutine_threadsafe(self, coro, loop=None):
+        return self._w.spawn(coro)
+
+    def get_running_loop(self):
+        return _Loop(self._w)
+
+    get_event_loop = get_running_loop
+
+    def wait(self, aws, *, timeout=None, return_when="ALL_COMPLETED"):
+        aws = list(aws)
+        if return_when != "ALL_COMPLETED" or timeout is not None:
+            raise AnalysisError("client replay model: asyncio.wait with a timeout / return_when is not modelled")
+
+        def run():
+            if not aws:
+                raise Raised("ValueError", "Set of Tasks/Futures is empty.")
+            self._w.await_many(aws)
+            return (set(), set())
+
+        return _Aw(run, "asyncio.wait")
+
+    def gather(self, *aws, return_exceptions=False):
+        return _Aw(lambda: self._w.await_many(list(aws)), "asyncio.gather")
+
+    def sleep(self, delay=0, result=None):
+        return _Aw(lambda: result, "asyncio.sleep")
+
+    def shield(self, aw):
+        return aw
+
+    def wait_for(self, aw, timeout=None):
+        # no clock in the model: a timeout fires only when the awaited thing would otherwise wait forever
+        def run():
+            try:
+                return self._w.interp.await_(aw)
+            except _Blocked:
+                if timeout is None:
+                    raise
+                raise Raised("TimeoutError")  # nothing else can happen any more: the timeout fires
+
+        return _Aw(run, "asyncio.wait_for")
+
+
+class _Time(_Model):
+    def time(self):
+        return 0.0
+
+    monotonic = perf_counter = time
+
+
+class _Addons(_Model):
+    def __init__(self, world):
+        self._w = world
+
+    def handle_lifecycle(self, hook):
+        return _Aw(lambda: self._w.on_lifecycle(hook), "addons.handle_lifecycle")
+
+    def trigger(self, *a, **k):
         return None
 
-    def raises_into(self, stmt, handler_names, st):
-        return self._raises(stmt)
+    def trigger_event(self, *a, **k):
+        return _Aw(lambda: None, "addons.trigger_event")
+
+
+class _Master(_Model):
+    def __init__(self, world):
+        self.addons = _Addons(world)
+
+
+class _Ctx(_Model):
+    """mitmproxy.ctx"""
+
+    def __init__(self, world, options):
+        self.master = _Master(world)
+        self.options = options
+
+
+class _HandlerIO(_Model):
+    """the part of proxy.server.ConnectionHandler a replay handler uses: feeding an event to its layer"""
+
+    def __init__(self, world, handler):
+        self._w, self._h = world, handler
+
+    def server_event(self, event):
+        return _Aw(lambda: self._w.on_server_event(self._h, event), "server_event")
+
+
+class _State:
+    """what Flow.get_state returns in the model: an identity-preserving snapshot of the flow (always truthy, like a state dict)"""
+
+    def __init__(self, snap):
+        self.snap = snap
+
+
+def _lenient(rec):
+    object.__setattr__(rec, "_lenient", True)
+    return rec
+
+
+def _freeze(v, depth=0):
+    """structural value of a flow for before / after comparison (private attributes - the backup itself - and methods excluded)"""
+    if isinstance(v, Rec):
+        if depth > 3:
+            return ("rec", v._name)
+        return ("rec", v._name, tuple(sorted((k, _freeze(x, depth + 1)) for k, x in v.__dict__.items() if not k.startswith("_") and not callable(x))))
+    if isinstance(v, dict):
+        return ("dict", tuple(sorted((repr(k), _freeze(x, depth + 1)) for k, x in v.items())))
+    if isinstance(v, (list, tuple)):
+        return ("seq", tuple(_freeze(x, depth + 1) for x in v))
+    return repr(v)
+
+
+def _diff(a, b):
+    """names of the top-level attributes in which two frozen flows differ"""
+    da, db = dict(a[2]), dict(b[2])
+    return sorted(k for k in set(da) | set(db) if da.get(k) != db.get(k))
+
+
+# ---------------------------------------------------------------------------------------------------
+# the interpreter
+
+
+def _identity(x):
+    return id(x)
+
+
+_identity._pyint_accepts_abstract = True
+_EXTRA_BUILTINS = {"id": _identity, "__debug__": True}
+
+
+class _Sim(Interp):
+    """pyint + coroutines: calling a repository ``async def`` yields a ``_Coro``; ``await`` runs a ``_Coro`` in place and a library
+    awaitable through the world (which may run other activities first)."""
+
+    def __init__(self, model, world):
+        super().__init__(model, trusted_modules={"logging": NullLog(), "asyncio": world.asyncio, "time": _Time()}, max_depth=40, max_steps=300000)
+        self.world = world
+        self._islog: dict = {}
+
+    @staticmethod
+    def _owner(n, fn):
+        if isinstance(n, ast.Await):
+            return False  # coroutines are interpreted here (pyint alone refuses them)
+        return Interp._owner(n, fn)
+
+    # -- values
+    def name(self, ident, env, mod, depth, node):
+        try:
+            return super().name(ident, env, mod, depth, node)
+        except AnalysisError:
+            if ident in _EXTRA_BUILTINS:
+                return _EXTRA_BUILTINS[ident]
+            raise
+
+    def truthy(self, v):
+        if isinstance(v, _Opaque):
+            v._no()
+        return super().truthy(v)
+
+    def cmp(self, op, a, b, node):
+        for x in (a, b):
+            if isinstance(x, _Opaque):
+                x._no()
+        return super().cmp(op, a, b, node)
+
+    def exc_isa(self, name, handler, mod):
+        a = getattr(_stdlib_asyncio, name, None)
+        if isinstance(a, type) and issubclass(a, BaseException) and getattr(builtins, name, None) is None:
+            h = getattr(builtins, handler, None) or getattr(_stdlib_asyncio, handler, None)
+            return isinstance(h, type) and issubclass(a, h)
+        return super().exc_isa(name, handler, mod)
+
+    def getattr(self, base, attr, node, depth):
+        if isinstance(base, _Opaque):
+            return _Opaque(f"{base._n}.{attr}")
+        if isinstance(base, tuple) and base and base[0] == "$module":
+            try:
+                return super().getattr(base, attr, node, depth)
+            except AnalysisError:
+                sub = self.model.module_by_dotted(base[1].dotted + "." + attr)  # a sub-module reached as an attribute of its package
+                if sub is None:
+                    raise
+                return ("$module", sub)
+        if isinstance(base, Rec) and base.__dict__.get("_lenient"):
+            try:
+                return super().getattr(base, attr, node, depth)
+            except AnalysisError as e:
+                if "has no attribute" not in str(e):
+                    raise
+                known = base.__dict__.get("_known")
+                if known is not None and attr not in known:
+                    raise Raised("AttributeError", f"'{base._cls}' object has no attribute '{attr}'")  # no class of its MRO defines or assigns it
+                return _Opaque(f"{base._name}.{attr}")
+        return super().getattr(base, attr, node, depth)
+
+    # -- calls
+    def native_call(self, f, args, kwargs, where):
+        if any(isinstance(a, _Opaque) for a in list(args) + list(kwargs.values())) and not (getattr(f, "_pyint_accepts_abstract", False) or getattr(getattr(f, "__self__", None), "_pyint_accepts_abstract", False)):
+            raise AnalysisError(f"client replay model: an unknown value is passed to a library function at {where}")
+        return super().native_call(f, args, kwargs, where)
+
+    def ev_call(self, e, env, mod, depth):
+        # logging is outside the rule's alphabet: the call is transparent and its arguments are not evaluated
+        k = id(e)
+        if k not in self._islog:
+            self._islog[k] = False
+            ch = attr_chain(e.func)
+            if ch and "." in ch and ch.split(".")[0] not in env:
+                try:
+                    self._islog[k] = super().ev(e.func, env, mod, depth) is _noop
+                except (AnalysisError, Raised):
+                    self._islog[k] = False
+        if self._islog[k]:
+            return None
+        return super().ev_call(e, env, mod, depth)
+
+    def apply(self, f, args, kwargs, depth, node=None):
+        if isinstance(f, Func):
+            if f.mod.rel == UTILS:
+                return self.world.utils_call(f.node.name, args, kwargs)
+            if isinstance(f.node, ast.AsyncFunctionDef):
+                return _Coro(f, list(args), dict(kwargs))
+        return super().apply(f, args, kwargs, depth, node)
+
+    def call_func(self, f, args, kwargs, depth):
+        q = getattr(f.node, "_qual", None)
+        if q:
+            self.world.functions.add(f"{f.mod.rel}::{q}")
+        return super().call_func(f, args, kwargs, depth)
+
+    def instantiate(self, c, args, kwargs, depth, where):
+        if self.world.is_handler_class(c):
+            return self.world.make_handler(c, args, kwargs)
+        if c.mod.rel == F:
+            return super().instantiate(c, args, kwargs, depth, where)
+        try:
+            return super().instantiate(c, args, kwargs, depth, where)
+        except AnalysisError:
+            # payload objects of other modules (events, hooks, contexts) are only handed to the world: an opaque record of that class
+            qual = getattr(c.node, "_qual", c.node.name)
+            return _lenient(Rec(c.node.name, _bases=tuple(cc.name for _, cc in self.model.mro(c.mod.rel, qual))[1:], _impl=(c.mod.rel, qual)))
+
+    # -- coroutines
+    def ev(self, e, env, mod, depth):
+        if isinstance(e, ast.Await):
+            return self.await_(self.ev(e.value, env, mod, depth), depth, e)
+        return super().ev(e, env, mod, depth)
+
+    def await_(self, v, depth=0, node=None):
+        if isinstance(v, _Coro):
+            if v.used:
+                raise Raised("RuntimeError", "cannot reuse already awaited coroutine")
+            v.used = True
+            h = v.f.bound if isinstance(v.f.bound, Rec) else None
+            self.world.enter(h, v.label)
+            try:
+                return self.call_func(v.f, v.args, v.kwargs, depth + 1)
+            finally:
+                self.world.exit(h, v.label)
+        if isinstance(v, _Aw):
+            return v.run()
+        if isinstance(v, Rec) and v.isa("Task"):
+            return self.world.await_many([v])
+        raise AnalysisError(f"client replay model: await of {v!r} is not modelled: {norm(node) if node is not None else '?'}")
+
+    def try_(self, st, env, mod, depth):
+        # as Interp.try_, additionally recording which interpreted exception a handler caught (diagnostics of swallowed crashes)
+        try:
+            try:
+                self.block(st.body, env, mod, depth)
+            except Raised as r:
+                for h in st.handlers:
+                    names = ["BaseException"] if h.type is None else [last_attr(x) for x in (h.type.elts if isinstance(h.type, ast.Tuple) else [h.type])]
+                    if any(self.exc_isa(r.name, n, mod) for n in names):
+                        self.world.ev("caught", r.name, r.msg)
+                        if h.name:
+                            env[h.name] = f"<exc:{r.name}>"
+                        prev = env.get("$handling")
+                        env["$handling"] = r.name
+                        try:
+                            self.block(h.body, env, mod, depth)
+                        finally:
+                            if prev is None:
+                                env.pop("$handling", None)
+                            else:
+                                env["$handling"] = prev
+                        break
+                else:
+                    raise
+            else:
+                self.block(st.orelse, env, mod, depth)
+        finally:
+            if st.finalbody:
+                self.block(st.finalbody, env, mod, depth)
+
+
+# ---------------------------------------------------------------------------------------------------
+# the world
+
+
+class _Act:
+    """something that runs when the current activity suspends"""
+
+    def __init__(self, label, step, more):
+        self.label, self._step, self._more = label, step, more
+        self.busy = False
+
+    @property
+    def more(self):
+        return self._more()
+
+    def step(self):
+        self._step()
+
+
+class _HState:
+    def __init__(self, flow):
+        self.flow = flow
+        self.started = False
+        self.script = []
+        self.pos = 0
+        self.current = None  # (hook record, class name, data) while handle_hook runs
+        self.transports = []
+        self.depth = 0
+
+
+class _World:
+    def __init__(self, model, conc=1, script=("HttpRequestHeadersHook", "HttpRequestHook", "HttpResponseHeadersHook", "HttpResponseHook"), transports=True, intercept=()):
+        self.model = model
+        self.log = []
+        self.events = []
+        self.queues = []
+        self.acts = []
+        self.functions = set()
+        self.handlers = {}  # id(handler record) -> _HState
+        self.handler_order = []
+        self.hooks = {}  # id(hook record) -> handler record
+        self.script, self.with_transports, self.intercept = tuple(script), transports, set(intercept)
+        self.asyncio = _Asyncio(self)
+        self.options = _lenient(Rec("Options", _name="options", client_replay_concurrency=conc))
+        self.ctx = _Ctx(self, self.options)
+        self.interp = _Sim(model, self)
+        self.interp.overrides[(F, "ctx")] = self.ctx
+        self.addon = None
+        self.on_start = None  # callback(handler record): sampled when the layer of a handler is started
+        self.ctor = None
+        self._hcls = {}
+        self._known = {}
+        self.running = []  # stack of the activities being stepped (innermost last)
+        self._hookcls = None
+
+    def ev(self, *e):
+        self.log.append(e)
+
+    # -- construction
+    def new_flow(self, name, impl=HTTPFLOW, **attrs):
+        names = [c.name for _, c in self.model.mro(*impl)]
+        f = _lenient(Rec(names[0], _bases=tuple(names[1:]), _impl=impl, _name=name))
+        base = dict(id=name, live=False, intercepted=False, error=None, is_replay=None, _backup=None, marked="", comment="", metadata={})
+        if impl == HTTPFLOW:
+            base.update(request=_lenient(Rec("Request", _name=f"{name}.request", raw_content=b"x", content=b"x", host="example.com", port=80, scheme="http", trailers=None)),
+                        response=_lenient(Rec("Response", _name=f"{name}.response", status_code=200, raw_content=b"y", content=b"y")), websocket=None)
+        base.update(attrs)
+        for k, v in base.items():
+            object.__setattr__(f, k, v)
+        object.__setattr__(f, "_known", self.known_attrs(impl))
+        object.__setattr__(f, "get_state", lambda: _State(_snapshot([f])))
+        object.__setattr__(f, "set_state", lambda state: self._set_state(f, state))
+        object.__setattr__(f, "wait_for_resume", lambda: _Aw(lambda: self.on_resume(f), "Flow.wait_for_resume"))
+        return f
+
+    def known_attrs(self, impl):
+        """every attribute name an instance of the repository class can have: class-level names and ``self.x`` targets along the MRO"""
+        if impl not in self._known:
+            out = set()
+            for _, c in self.model.mro(*impl):
+                for st in c.body:
+                    if isinstance(st, (ast.FunctionDef, ast.AsyncFunctionDef, ast.ClassDef)):
+                        out.add(st.name)
+                        if isinstance(st, ast.ClassDef):
+                            continue
+                        a = st.args.posonlyargs + st.args.args
+                        me = a[0].arg if a else None
+                        for n in ast.walk(st):
+                            if isinstance(n, ast.Attribute) and isinstance(n.ctx, (ast.Store, ast.Del)) and isinstance(n.value, ast.Name) and n.value.id == me:
+                                out.add(n.attr)
+                    elif isinstance(st, ast.AnnAssign) and isinstance(st.target, ast.Name):
+                        out.add(st.target.id)
+                    elif isinstance(st, ast.Assign):
+                        out.update(t.id for t in st.targets if isinstance(t, ast.Name))
+            self._known[impl] = out
+        return self._known[impl]
+
+    def _set_state(self, f, state):
+        if not isinstance(state, _State):
+            raise AnalysisError(f"client replay model: Flow.set_state is called with {state!r}, not with a state that get_state produced")
+        _restore(state.snap)
+
+    def new_addon(self):
+        cref = ClassRef(self.model.module(F), self.model.cls(F, ADDON))
+        try:
+            self.addon = self.interp.instantiate(cref, [], {}, 0, f"{ADDON}()")
+        except Raised as r:
+            raise AnalysisError(f"{ADDON}() raises {r.name} in the model world: {r.msg}")
+        if len(self.queues) != 1:
+            raise AnalysisError(f"{ADDON}.__init__ creates {len(self.queues)} asyncio.Queue objects (exactly one - the replay queue - is modelled)")
+        return self.addon
+
+    @property
+    def queue(self):
+        return self.queues[0]
+
+    def call(self, rec, name, *args):
+        """run a plain method of a record to completion -> return value (Raised passes through)"""
+        it = self.interp
+        f = it.getattr(rec, name, None, 0)
+        if not isinstance(f, Func):
+            raise AnalysisError(f"{rec._name}.{name} is not a repository method")
+        r = it.apply(f, list(args), {}, 0)
+        if isinstance(r, _Coro):
+            raise AnalysisError(f"{rec._name}.{name} became a coroutine (not modelled)")
+        return r
+
+    def is_handler_class(self, c):
+        k = c._key()
+        if k not in self._hcls:
+            self._hcls[k] = c.mod.rel == F and any(cc.name == "ConnectionHandler" and m.rel == "mitmproxy/proxy/server.py" for m, cc in self.model.mro(*k)[1:])
+        return self._hcls[k]
+
+    def make_handler(self, c, args, kwargs):
+        """ReplayHandler(flow, options): __init__ is not interpreted (it builds contexts and layers of the proxy core); attributes it assigns
+        from a parameter or from asyncio.Event() are taken over, everything else the core provides is opaque / modelled"""
+        rel, qual = c._key()
+        names = [cc.name for _, cc in self.model.mro(rel, qual)]
+        h = _lenient(Rec(c.node.name, _bases=tuple(names[1:]), _impl=(rel, qual), _name=f"handler{len(self.handler_order) + 1}"))
+        flows = [a for a in list(args) + list(kwargs.values()) if isinstance(a, Rec) and a.isa("Flow")]
+        if len(flows) != 1:
+            raise AnalysisError(f"{c.node.name}(...) is constructed from {len(flows)} flows (exactly one is modelled)")
+        st = self.handlers[id(h)] = _HState(flows[0])
+        self.handler_order.append(h)
+        if self.ctor is None:
+            self.ctor = (c, list(args), dict(kwargs))
+        init = self.model.method(rel, qual, "__init__")
+        if init is not None and init[0].rel == F:
+            a = init[1].args
+            if a.vararg or a.kwarg:
+                raise AnalysisError(f"{c.node.name}.__init__ takes *args / **kwargs (not modelled)")
+            params = [p.arg for p in a.posonlyargs + a.args]
+            env = dict(zip(params, [h] + list(args)))
+            env.update(kwargs)
+            n_ev = len(self.events)
+            for n in own_nodes(init[1]):
+                if isinstance(n, ast.Assign) and len(n.targets) == 1:
+                    tgt, val = n.targets[0], n.value
+                elif isinstance(n, ast.AnnAssign) and n.value is not None:
+                    tgt, val = n.target, n.value
+                else:
+                    continue
+                if not (isinstance(tgt, ast.Attribute) and isinstance(tgt.value, ast.Name) and tgt.value.id == params[0]):
+                    continue
+                try:
+                    v = self.interp.ev(val, dict(env), init[0], 1)
+                except (AnalysisError, Raised):
+                    v = _Opaque(f"{h._name}.{tgt.attr}")
+                object.__setattr__(h, tgt.attr, v)
+            for e in self.events[n_ev:]:
+                e.owner = h
+        # what proxy.server.ConnectionHandler provides
+        if self.with_transports:
+            t1, t2 = self.new_task("server connection 1"), self.new_task("server connection 2")
+            st.transports = [t1, t2]
+            tr = {_lenient(Rec("Server", _name="server1")): _lenient(Rec("ConnectionIO", handler=t1)), _lenient(Rec("Server", _name="idle")): _lenient(Rec("ConnectionIO", handler=None)),
+                  _lenient(Rec("Server", _name="server2")): _lenient(Rec("ConnectionIO", handler=t2))}
+        else:
+            tr = {}
+        object.__setattr__(h, "transports", tr)
+        object.__setattr__(h, "server_event", _HandlerIO(self, h).server_event)
+        st.script = list(self.script)
+        self.ev("handler", h, st.flow)
+        return h
+
+    def new_task(self, label):
+        t = Rec("Task", _bases=("Future",), _name=f"task:{label}", _cancelled=False, _awaited=False)
+
+        def cancel(msg=None):
+            object.__setattr__(t, "_cancelled", True)
+            self.ev("cancel", t)
+            return True
+
+        for k, v in dict(cancel=cancel, add_done_callback=lambda cb: None, remove_done_callback=lambda cb: 0, done=lambda: False, cancelled=lambda: t._cancelled,
+                         set_name=lambda name: None, get_name=lambda: label).items():
+            object.__setattr__(t, k, v)
+        return t
+
+    def hook_classes(self):
+        if self._hookcls is None:
+            out = {}
+            for rel in HOOK_FILES:
+                m = self.model.module(rel)
+                for q, d in m.defs().items():
+                    if isinstance(d, ast.ClassDef) and "." not in q and any(c.name == "StartHook" for _, c in self.model.mro(rel, q)[1:]):
+                        out[d.name] = (rel, q)
+            for t in TERMINAL:
+                if t not in out:
+                    raise AnalysisError(f"anchor class vanished: {t} (a StartHook of {HOOK_FILES[0]})")
+            self._hookcls = out
+        return self._hookcls
+
+    def make_hook(self, cname, flow):
+        rel, q = self.hook_classes()[cname]
+        mro = self.model.mro(rel, q)
+        hook = Rec(cname, _bases=tuple(c.name for _, c in mro[1:]), _impl=(rel, q), _name=cname)
+        fields = []
+        for _, c in reversed(mro):
+            if not any(last_attr(d) == "dataclass" for d in c.decorator_list):
+                continue  # only dataclasses contribute fields (Command.blocking is a plain class attribute)
+            for st in c.body:
+                if isinstance(st, ast.AnnAssign) and isinstance(st.target, ast.Name) and "ClassVar" not in norm(st.annotation) and st.target.id not in [x[0] for x in fields]:
+                    fields.append((st.target.id, norm(st.annotation)))
+        vals = []
+        for name, ann in fields:
+            v = flow if "Flow" in ann else _lenient(Rec(ann.split(".")[-1] if ann.replace(".", "").isidentifier() else "HookData", _name=f"{cname}.{name}"))
+            object.__setattr__(hook, name, v)
+            vals.append(v)
+        object.__setattr__(hook, "args", lambda: list(vals))
+        return hook, vals
+
+    # -- scheduler
+    def settle(self, cond):
+        while not cond():
+            act = next((a for a in self.acts if not a.busy and a.more), None)
+            if act is None:
+                return False
+            act.busy = True
+            self.running.append(act)
+            try:
+                act.step()
+            finally:
+                self.running.pop()
+                act.busy = False
+        return True
+
+    def owner_of(self, e):
+        """the handler an Event belongs to: created by its __init__, or held in one of its attributes"""
+        if e.owner is None:
+            e.owner = next((h for h in self.handler_order if any(v is e for v in h.__dict__.values())), None)
+        return e.owner
+
+    def spawn(self, coro):
+        if isinstance(coro, _Coro):
+            label, bound = coro.label, coro.f.bound if isinstance(coro.f.bound, Rec) else None
+        elif isinstance(coro, _Aw):
+            label, bound = coro.what, None
+        else:
+            raise AnalysisError(f"client replay model: a task is created from {coro!r} (not a coroutine of the repository)")
+        t = self.new_task(label)
+        self.ev("spawn", label, bound)
+        todo = [coro]
+
+        def step():
+            c = todo.pop()
+            try:
+                self.interp.await_(c)
+            except _Blocked as b:
+                self.ev("task-blocked", label, str(b))
+            except Raised as r:
+                self.ev("task-crashed", label, r.name, r.msg)
+
+        self.acts.append(_Act(label, step, lambda: bool(todo)))
+        return t
+
+    def utils_call(self, name, args, kwargs):
+        if name == "create_task" and len(args) == 1:
+            return self.spawn(args[0])
+        if name in ("set_task_debug_info", "set_current_task_debug_info"):
+            return None
+        raise AnalysisError(f"client replay model: mitmproxy.utils.asyncio_utils.{name} is not modelled")
+
+    def queue_get(self, q):
+        if not q.items:
+            self.settle(lambda: bool(q.items))
+        if not q.items:
+            self.ev("idle")
+            raise _Blocked("the replay queue is empty")
+        item = q.items.pop(0)
+        self.ev("get", item)
+        return item
+
+    def wait_event(self, e):
+        self.ev("wait", self.owner_of(e))
+        if not self.settle(lambda: e._v):
+            self.ev("hang", self.owner_of(e))
+            raise _Blocked("waits for an event that is never set")
+        self.ev("wake", self.owner_of(e))
+        return True
+
+    def await_many(self, aws):
+        for a in aws:
+            if isinstance(a, Rec) and a.isa("Task"):
+                object.__setattr__(a, "_awaited", True)
+                self.ev("awaited", a)
+            elif isinstance(a, (_Coro, _Aw)):
+                self.interp.await_(a)
+            else:
+                raise AnalysisError(f"client replay model: waiting for {a!r} is not modelled")
+        return None
+
+    # -- the handler's side
+    def enter(self, h, label):
+        st = self.handlers.get(id(h)) if h is not None else None
+        if st is not None and st.current is None:
+            st.depth += 1
+            if st.depth == 1:
+                self.ev("enter", h, label)
+
+    def exit(self, h, label):
+        st = self.handlers.get(id(h)) if h is not None else None
+        if st is not None and st.current is None:
+            st.depth -= 1
+            if st.depth == 0:
+                self.ev("exit", h, label, st.pos >= len(st.script))
+
+    def on_server_event(self, h, event):
+        st = self.handlers[id(h)]
+        if not (isinstance(event, Rec) and event.isa("Start")):
+            raise AnalysisError(f"client replay model: the handler feeds {event!r} to its layer (only events.Start is modelled)")
+        if st.started:
+            raise AnalysisError("client replay model: the layer of a replay handler is started twice (not modelled)")
+        st.started = True
+        self.ev("start", h, self.on_start(h) if self.on_start else None, self.running[-1] if self.running else None)
+        self.acts.append(_Act(f"core of {h._name}", lambda: self.deliver(h), lambda: st.pos < len(st.script)))
+        return None
+
+    def deliver(self, h, cname=None):
+        """the proxy core hands the next hook of the script to the handler's handle_hook"""
+        st = self.handlers[id(h)]
+        if cname is None:
+            cname = st.script[st.pos]
+            st.pos += 1
+        hook, vals = self.make_hook(cname, st.flow)
+        self.hooks[id(hook)] = h
+        f = self.interp.getattr(h, "handle_hook", None, 0)
+        if not (isinstance(f, Func) and isinstance(f.node, ast.AsyncFunctionDef) and f.mod.rel == F):
+            raise AnalysisError(f"{h._cls}.handle_hook is not a coroutine method of {F}")
+        st.current = {"hook": hook, "cls": cname, "data": vals, "lifecycle": False, "resumed": False, "set": False}
+        self.ev("hook", h, cname)
+        try:
+            self.interp.await_(_Coro(f, [hook], {}))
+        finally:
+            cur, st.current = st.current, None
+        self.ev("hook-end", h, cname)
+        return cur
+
+    def on_lifecycle(self, hook):
+        h = self.hooks.get(id(hook))
+        if h is None:
+            raise AnalysisError(f"client replay model: handle_lifecycle is called with {hook!r}, not with the hook that was delivered")
+        cur = self.handlers[id(h)].current
+        cur["lifecycle"] = True
+        self.ev("lifecycle", h, cur["cls"])
+        if cur["cls"] in self.intercept:
+            for d in cur["data"]:
+                if isinstance(d, Rec) and d.isa("Flow"):
+                    object.__setattr__(d, "intercepted", True)  # an addon intercepts the flow in this hook
+        return None
+
+    def on_resume(self, flow):
+        h = next((x for x in self.handler_order if self.handlers[id(x)].flow is flow and self.handlers[id(x)].current is not None), None)
+        cur = self.handlers[id(h)].current if h is not None else None
+        self.ev("resume", h, flow, bool(cur and cur["set"]))
+        if cur is not None:
+            cur["resumed"] = cur["lifecycle"]
+        object.__setattr__(flow, "intercepted", False)  # the user resumes it eventually
+        return None
+
+    def on_set(self, e):
+        h = self.owner_of(e)
+        st = self.handlers.get(id(h)) if h is not None else None
+        cur = st.current if st is not None else None
+        facts = None
+        if cur is not None:
+            cur["set"] = True
+            flows = [d for d in cur["data"] if isinstance(d, Rec) and d.isa("Flow")]
+            facts = {"cls": cur["cls"], "lifecycle": cur["lifecycle"], "flow": bool(flows), "resumed": cur["resumed"], "intercepted": any(d.intercepted for d in flows),
+                     "open": [t._name for t in st.transports if not (t._cancelled and t._awaited)], "inflight": self.on_start(h) if self.on_start else None}
+        self.ev("set", h, facts)
 
 
 # ---------------------------------------------------------------------------------------------------
 # R53.1
 
 
+def _where(ctx, qual):
+    m = ctx.model.module(F)
+    q = qual
+    while q and m.get(q) is None:
+        q = q.rpartition(".")[0]
+    return (F, qual, m.get(q) if q else 0)
+
+
+def _guarded(what, fn, *args):
+    """run a piece of a simulation: an interpreted exception escaping it means the model world is not adequate -> AnalysisError"""
+    try:
+        return fn(*args)
+    except Raised as r:
+        raise AnalysisError(f"{what} raises {r.name} in the model world ({r.msg}): not modelled")
+
+
+def _refuses(world, flow):
+    r = _guarded(f"{ADDON}.check", world.call, world.addon, "check", flow)
+    if r is not None and not (isinstance(r, str) and r):
+        raise AnalysisError(f"{ADDON}.check returns {r!r} (neither None nor a message)")
+    return r is not None
+
+
+def run_playback(ctx, conc, n=3):
+    """the addon as mitmproxy drives it: constructed, running(), n flows in the queue, then everything runs until all activities wait"""
+    w = _World(ctx.model, conc=conc)
+    w.new_addon()
+    w.on_start = lambda h: _refuses(w, w.handlers[id(h)].flow)
+    flows = [w.new_flow(f"flow{i + 1}") for i in range(n)]
+    n0 = len(w.acts)
+    _guarded(f"{ADDON}.running", w.call, w.addon, "running")
+    boot = w.acts[n0:]
+    if len(boot) != 1:
+        raise AnalysisError(f"{ADDON}.running() starts {len(boot)} tasks (exactly one - the playback loop - is modelled)")
+    w.log.clear()
+    w.queue.preload(flows)
+    w.settle(lambda: False)
+    ctx.cells += 1
+    ctx.paths += len(w.log)
+    ctx.functions |= w.functions
+    idle_refused = [f._name for f in flows if _refuses(w, f)] if any(e[0] == "idle" for e in w.log) else None
+    return w, flows, boot[0], idle_refused
+
+
 def check_playback(ctx):
-    fn = ctx.func(F, "ClientPlayback.playback")
-    W = (F, "ClientPlayback.playback", fn)
-    body = stmts_of(fn)
-    ctx.require(len(body) == 1 and isinstance(body[0], ast.While) and isinstance(body[0].test, ast.Constant) and body[0].test.value is True and not body[0].orelse,
-                "ClientPlayback.playback is no longer a single `while True` loop")
-    loop = body[0]
-    opt = "ctx.options.client_replay_concurrency"
+    ctx.func(F, f"{ADDON}.running")
+    w, flows, loop, idle_refused = run_playback(ctx, 1)
+    qual = f"{ADDON}.{loop.label}"
+    W = _where(ctx, qual)
+    log = w.log
 
-    def conds(e):
-        if attr_chain(e) == "self.inflight":
-            return ("inflight-set", True)
-        return None
+    def idx(pred, start=0):
+        return next((i for i in range(start, len(log)) if pred(log[i])), -1)
 
-    results = {}
-    for conc in (1, -1):
-        sp = Ev(conds, env_values={opt: "$conc"})
-        eng = StrictEngine(sp, lambda e: conds(e) is not None, "ClientPlayback.playback")
-        o = eng.block(loop.body, {State((), {"$conc": C(conc)})}, 0)
-        ctx.cells += 1
-        ctx.require(not o.ret and not o.brk, "ClientPlayback.playback: the loop can be left (not modelled)")
-        results[conc] = [s.trace for s in o.normal | o.cont]
-        ctx.paths += len(results[conc])
-    seq = results[1]
-    ctx.require(seq and all(("await", "self.queue.get") in tr for tr in seq), "ClientPlayback.playback: iteration does not start with `await self.queue.get()`")
-    bad = None
-    for tr in seq:
-        g = index_of(tr, lambda e: e == ("await", "self.queue.get"))
-        spawned = [e for e in tr if e[0] == "call" and (e[1].endswith("create_task") or e[1].endswith("ensure_future") or e[1].endswith("run_coroutine_threadsafe"))]
-        rep = [i for i, e in enumerate(tr) if e[0] == "await" and e[1].endswith(".replay")]
-        if spawned:
-            bad = bad or ("the replay is spawned as a task although concurrency is 1", tr)
-        elif not rep or rep[0] < g:
-            bad = bad or ("the iteration does not await h.replay() after dequeuing", tr)
-        else:
-            td = index_of(tr, lambda e: e[0] == "call" and e[1] == "self.queue.task_done")
-            if td >= 0 and td < rep[0]:
-                bad = bad or ("queue.task_done() is reported before the replay finished", tr)
-            if any(e == ("await", "self.queue.get") for e in tr[g + 1:]):
-                bad = bad or ("a second flow is dequeued in the same iteration", tr)
-    ctx.check(not bad, "R53.1", W, f"concurrency 1: {bad[0] if bad else ''}", f"{bad[0] if bad else ''} (path {list(bad[1]) if bad else ''}): the next replay starts before the previous one finished",
-              desc=f"playback (concurrency 1): await queue.get() -> await h.replay() -> task_done() on all {len(seq)} iteration paths")
-    # the handler awaited is a ReplayHandler built from the dequeued flow
-    hs = [n for n in own_nodes(fn) if isinstance(n, ast.Assign) and isinstance(n.value, ast.Call) and call_name(n.value) == "ReplayHandler"]
-    ok = len(hs) == 1 and hs[0].value.args and norm(hs[0].value.args[0]) == "self.inflight" and isinstance(hs[0].targets[0], ast.Name)
-    ok = ok and all(any(e == ("await", f"{hs[0].targets[0].id}.replay") for e in tr) for tr in seq)
-    ctx.check(ok, "R53.1", W, "the awaited replay is not ReplayHandler(self.inflight, ...).replay()", "the flow that was dequeued is not the one whose completion is awaited",
-              desc="playback: h = ReplayHandler(self.inflight, ...) ; await h.replay()")
-    # inflight bookkeeping
-    bad = None
-    for tr in seq:
-        g = index_of(tr, lambda e: e[0] == "assign" and e[1] == "self.inflight" and "self.queue.get" in e[2])
-        c = index_of(tr, lambda e: e == ("assign", "self.inflight", "None"))
-        rep = index_of(tr, lambda e: e[0] == "await" and e[1].endswith(".replay"))
-        if not (0 <= g < rep < c):
-            bad = bad or tr
-    ctx.check(not bad, "R53.1", W, "self.inflight is not set from queue.get() before and cleared after the replay", "check() cannot refuse the flow that is being replayed / refuses it forever",
-              desc="playback: self.inflight = dequeued flow during the replay, None afterwards")
+    def show(upto=None):
+        out = []
+        for e in log[: upto if upto is not None else len(log)]:
+            out.append(e[0] + "(" + ", ".join(x._name if isinstance(x, Rec) else str(x) for x in e[1:] if not isinstance(x, (dict, bool, type(None)))) + ")")
+        return " ; ".join(out)[:900]
+
+    caught = sorted({e[1] for e in log if e[0] == "caught"})
+    crashed = f" [interpreted exceptions caught on the way: {caught}]" if caught else ""
+    spawned = [e for e in log if e[0] == "start" and e[3] is not loop]  # replays whose layer is started by another task than the loop
+    bad = bad_h = bad_r = None
+    n_done = sum(1 for e in log if e[0] == "task_done")
+    for i, fl in enumerate(flows):
+        g = idx(lambda e: e[0] == "get" and e[1] is fl)
+        if g < 0:
+            bad = bad or (f"{fl._name} is never dequeued although it is queued (the loop ended or is stuck)", None)
+            continue
+        nxt = idx(lambda e: e[0] in ("get", "idle"), g + 1)
+        end = nxt if nxt >= 0 else len(log)
+        hs = [e for e in log[g:end] if e[0] == "handler"]
+        mine = [e[1] for e in hs if e[2] is fl]
+        mine_spawned = [e for e in spawned if any(e[1] is h for h in mine)]
+        c = idx(lambda e: e[0] == "set" and e[1] is not None and w.handlers[id(e[1])].flow is fl, g)
+        td = [j for j in range(g, end) if log[j][0] == "task_done"]
+        if mine_spawned:
+            bad = bad or ("the replay is spawned as a task although concurrency is 1", end)
+        elif c < 0 or c > end:
+            bad = bad or (f"the iteration does not await the replay of {fl._name} to completion after dequeuing it", end)
+        elif td and td[0] < c:
+            bad = bad or (f"queue.task_done() is reported before the replay of {fl._name} finished", end)
+        # the handler awaited is built from the dequeued flow
+        st = idx(lambda e: e[0] == "start" and any(e[1] is h for h in mine), g)
+        if not (0 <= st < end) and not mine_spawned:
+            bad_h = bad_h or (f"after dequeuing {fl._name} the loop builds {[f'{e[1]._cls}({e[2]._name})' for e in hs]} and starts {[e[1]._name for e in log[g:end] if e[0] == 'start'] or 'nothing'}", end)
+        # the awaited handler coroutine: start the layer, return only after completion was signalled and the core is through
+        if mine:
+            h = log[st][1] if 0 <= st < end else mine[0]
+            en, ex, s, wk = (idx(lambda e, k=k: e[0] == k and e[1] is h, g) for k in ("enter", "exit", "set", "wake"))
+            hang = idx(lambda e: e[0] == "hang" and e[1] is h, g)
+            if en >= 0 and not mine_spawned:
+                if hang >= 0:
+                    bad_r = bad_r or (f"{log[en][2]}() waits for completion that is never signalled (layer started: {w.handlers[id(h)].started})", hang + 1)
+                elif ex >= 0 and not (0 <= st < ex and 0 <= s < ex and log[ex][3]):
+                    bad_r = bad_r or (f"{log[en][2]}() returns before the replay completed (layer started: {0 <= st < ex}, completion signalled: {0 <= s < ex}, last hook delivered: {log[ex][3]})", ex + 1)
+    ctx.check(not bad, "R53.1", W, f"concurrency 1: {bad[0] if bad else ''}", f"{bad[0] if bad else ''}{crashed} (events: {show(bad[1]) if bad else ''}): the next replay starts before the previous one finished",
+              desc=f"playback (concurrency 1): each of {len(flows)} queued flows is dequeued in order, replayed to completion, then task_done() ({n_done}) and only then the next queue.get() ({len(log)} events)")
+    ctx.check(not bad_h, "R53.1", W, "the awaited replay is not that of a handler built from the dequeued flow", f"{bad_h[0] if bad_h else ''}{crashed}: the flow that was dequeued is not the one whose completion is awaited",
+              desc=f"playback: a {w.handler_order[0]._cls if w.handler_order else '?'} is built from the dequeued flow and its coroutine awaited ({len(w.handler_order)} handlers)")
+    # in-flight bookkeeping, by its role: check() refuses the flow exactly while it is being replayed
+    starts = [e for e in log if e[0] == "start"]
+    sets = [e for e in log if e[0] == "set" and e[2] is not None]
+    not_refused = [w.handlers[id(e[1])].flow._name for e in starts if e[2] is False] + [w.handlers[id(e[1])].flow._name for e in sets if e[2]["inflight"] is False]
+    ok = bool(starts) and not not_refused and idle_refused == []
+    why = (f"check() admits {sorted(set(not_refused))} while it is being replayed" if not_refused else
+           f"check() still refuses {idle_refused} after the loop went idle" if idle_refused else "no replay was started / the loop never went idle")
+    ctx.check(ok or bool(bad and not starts), "R53.1", W, "the flow being replayed is not published as in flight for exactly the duration of the replay",
+              f"{why}: check() cannot refuse the flow that is being replayed / refuses it forever",
+              desc=f"playback: check() refuses the dequeued flow as in flight during its replay ({len(starts)} starts, {len(sets)} completions) and admits all again when idle")
+    rep = sorted({log[i][2] for i in range(len(log)) if log[i][0] == "enter"})
+    if not rep and not (bad or bad_h):
+        raise AnalysisError("client replay model: no coroutine of the replay handler was awaited although the sequencing held (not understood)")
+    hq = f"{w.handler_order[0]._cls}.{rep[0]}" if rep else qual
+    ctx.check(not bad_r, "R53.1", _where(ctx, hq), f"{rep[0] if rep else 'replay'}(): {bad_r[0] if bad_r else ''}",
+              f"{bad_r[0] if bad_r else ''}{crashed} (events: {show(bad_r[1]) if bad_r else ''}): the handler must start the layer and then wait for the completion signal; otherwise the playback loop continues early",
+              desc=f"{hq}: server_event(Start) first, returns only after completion was signalled and the last hook was handled")
     # unlimited mode really is the only one that spawns (keeps the decision non-vacuous)
-    ctx.require(ctx.findings or any(any(e[0] == "call" and e[1].endswith("create_task") for e in tr) for tr in results[-1]), "ClientPlayback.playback: concurrency -1 does not spawn tasks (option decision not recognised)")
+    w2, flows2, loop2, _ = run_playback(ctx, -1)
+    n_sp = sum(1 for e in w2.log if e[0] == "start" and e[3] is not loop2)
+    ctx.require(ctx.findings or n_sp == len(flows2), f"{qual}: concurrency -1 starts {n_sp} replays in tasks of their own for {len(flows2)} flows (option decision not recognised)")
+    return w
 
 
-def check_handler(ctx):
-    fn = ctx.func(F, "ReplayHandler.replay")
-    W = (F, "ReplayHandler.replay", fn)
-    eng = StrictEngine(Ev(), lambda e: False, "ReplayHandler.replay")
-    trs = eng.terminal(fn)
-    ok = len(trs) == 1 and [e for e in trs[0][0] if e[0] == "await"] == [("await", "self.server_event"), ("await", "self.done.wait")] and trs[0][0][-1] == ("await", "self.done.wait")
-    ctx.check(ok, "R53.1", W, f"replay(): {[e[1] for t in trs for e in t[0]]}", "replay() must start the layer and then wait for the completion signal; otherwise the playback loop continues early",
-              desc="ReplayHandler.replay: await server_event(Start()) ; await done.wait()")
-    init = ctx.func(F, "ReplayHandler.__init__")
-    ok = any(isinstance(n, ast.Assign) and attr_chain(n.targets[0]) == "self.done" and isinstance(n.value, ast.Call) and call_name(n.value) == "asyncio.Event" for n in own_nodes(init))
-    ctx.require(ok, "ReplayHandler.__init__: self.done is no longer an asyncio.Event()")
+def check_handler(ctx, pw):
     hh = ctx.func(F, "ReplayHandler.handle_hook")
-    W = (F, "ReplayHandler.handle_hook", hh)
-    hook = params_of(hh)[1]
-    terminal_names = None
-
-    def conds(e):
-        nonlocal terminal_names
-        if isinstance(e, ast.Call) and call_name(e) == "isinstance" and len(e.args) == 2 and norm(e.args[0]) == hook:
-            names = sorted(last_attr(x) for x in (e.args[1].elts if isinstance(e.args[1], ast.Tuple) else [e.args[1]]))
-            terminal_names = names
-            return ("terminal", True)
-        if isinstance(e, ast.Call) and call_name(e) == "isinstance":
-            return ("is-flow", True)
-        if attr_chain(e) in ("self.transports", "x.handler"):
-            return ("has-" + attr_chain(e).split(".")[-1], True)
-        return None
-
-    eng = StrictEngine(Ev(conds), lambda e: conds(e) is not None, "ReplayHandler.handle_hook")
-    trs = eng.terminal(hh)
-    ctx.paths += len(trs)
-    # same-class helpers that await wait_for_resume themselves count as the resume point (extracted-helper refactor)
-    rh = ctx.model.cls(F, "ReplayHandler")
-    resume_helpers = {f"self.{d.name}" for d in rh.body if isinstance(d, ast.AsyncFunctionDef) and d is not hh
-                      and any(isinstance(n, ast.Await) and isinstance(n.value, ast.Call) and norm(n.value.func).endswith(".wait_for_resume") for n in ast.walk(d))}
+    ctor = pw.ctor
+    if ctor is None:
+        cref = ClassRef(ctx.model.module(F), ctx.model.cls(F, "ReplayHandler"))
+        ctor = (cref, ["$flow", "$options"], {})
+    W = (F, f"{ctor[0].node.name}.handle_hook", hh)
+    probe = _World(ctx.model)
+    classes = probe.hook_classes()
+    completing = {}
     bad = None
-    n_resume_checked = 0
-    trs = sorted(trs, key=lambda x: (repr(x[0]), x[1]))  # deterministic choice of the reported path
-    for tr, how, _ in trs:  # the more specific diagnosis first
-        sets = [i for i, e in enumerate(tr) if e[0] == "call" and e[1] == "self.done.set"]
-        if sets and any(e[0] == "await" and (e[1].endswith(".wait_for_resume") or e[1] in resume_helpers) for e in tr[sets[0]:]):
-            bad = bad or ("completion is signalled before the flow was resumed (wait_for_resume is awaited after done.set()): the next replay starts while this flow is still intercepted", tr)
-    for tr, how, _ in trs:
-        sets = [i for i, e in enumerate(tr) if e[0] == "call" and e[1] == "self.done.set"]
-        if ("terminal", True) in tr and not sets and how == "return":
-            bad = bad or ("a response / error hook does not signal completion: the replay never finishes", tr)
-        if sets and ("terminal", True) not in tr[:sets[0]]:
-            bad = bad or ("completion is signalled for a hook that is not the response / error hook", tr)
-        if sets:
-            lc = index_of(tr, lambda e: e[0] == "await" and "handle_lifecycle" in e[1])
-            if not (0 <= lc < sets[0]):
-                bad = bad or ("completion is signalled before the addons handled the hook", tr)
-            if ("has-transports", True) in tr:
-                w = index_of(tr, lambda e: e[0] == "await" and e[1] == "asyncio.wait")
-                if not (0 <= w < sets[0]):
-                    bad = bad or ("completion is signalled before the server transports were closed and awaited", tr)
-            resumes = [i for i, e in enumerate(tr) if e[0] == "await" and (e[1].endswith(".wait_for_resume") or e[1] in resume_helpers)]
-            n_resume_checked += 1
-            if any(i > sets[0] for i in resumes):
-                bad = bad or ("completion is signalled before the flow was resumed (wait_for_resume is awaited after done.set()): the next replay starts while this flow is still intercepted", tr)
-            elif ("is-flow", False) not in tr[:sets[0]] and not resumes:
-                bad = bad or ("completion is signalled without waiting for the flow to be resumed: the next replay starts while this flow is still intercepted", tr)
-    ctx.check(not bad, "R53.1", W, f"handle_hook: {bad[0] if bad else ''}", f"{bad[0] if bad else ''} (path {list(bad[1]) if bad else ''})",
-              desc=f"handle_hook: done.set() on every and only response / error hook path, after handle_lifecycle, wait_for_resume and transport shutdown ({len(trs)} paths, {n_resume_checked} completing)")
-    ctx.require(terminal_names is not None, "handle_hook: no isinstance(hook, ...) test found")
-    ctx.check(terminal_names == ["HttpErrorHook", "HttpResponseHook"], "R53.1", W, f"completion hooks: {terminal_names}",
+    n_runs = n_complete = 0
+    for cname in sorted(classes):
+        for transports in (True, False):
+            for intercept in (False, True):
+                w = _World(ctx.model, transports=transports, intercept=(cname,) if intercept else ())
+                fl = w.new_flow("flow")
+
+                def sub(a):
+                    if isinstance(a, Rec):
+                        return fl if a.isa("Flow") else w.options if a.isa("Options") else a
+                    return fl if isinstance(a, str) and a == "$flow" else w.options if isinstance(a, str) and a == "$options" else a
+
+                h = w.make_handler(ctor[0], [sub(a) for a in ctor[1]], {k: sub(v) for k, v in ctor[2].items()})
+                w.handlers[id(h)].started = True
+                _guarded(f"handle_hook({cname})", w.deliver, h, cname)
+                ctx.cells += 1
+                ctx.paths += len(w.log)
+                ctx.functions |= w.functions
+                n_runs += 1
+                sets = [e for e in w.log if e[0] == "set"]
+                completing.setdefault(cname, set()).add(bool(sets))
+                world = f"{cname}, {'with' if transports else 'without'} server transports, flow {'intercepted in this hook' if intercept else 'not intercepted'}"
+                late = [e for e in w.log if e[0] == "resume" and e[3]]
+                if late:
+                    bad = bad or ("completion is signalled before the flow was resumed", "wait_for_resume is awaited after the completion signal: the next replay starts while this flow is still intercepted", world)
+                if cname in TERMINAL and not sets:
+                    bad = bad or ("a response / error hook does not signal completion", "the replay never finishes and the queue hangs", world)
+                if sets:
+                    n_complete += 1
+                    fa = sets[0][2]
+                    if fa is None or sets[0][1] is not h:
+                        raise AnalysisError("client replay model: an event that does not belong to the handler is set inside handle_hook (not understood)")
+                    if not fa["lifecycle"]:
+                        bad = bad or ("completion is signalled before the addons handled the hook", "handle_lifecycle has not run yet", world)
+                    if fa["open"]:
+                        bad = bad or ("completion is signalled before the server transports were closed and awaited", f"{fa['open']} not cancelled and awaited when the signal is given", world)
+                    if fa["flow"] and fa["intercepted"]:
+                        bad = bad or ("completion is signalled without waiting for the flow to be resumed", "the flow is still intercepted when the signal is given: the next replay starts while this flow is still live and editable", world)
+    ctx.check(not bad, "R53.1", W, f"handle_hook: {bad[0] if bad else ''}", f"{bad[0] if bad else ''}: {bad[1] if bad else ''} (world: {bad[2] if bad else ''})",
+              desc=f"handle_hook: completion is signalled on every response / error hook run, after handle_lifecycle, wait_for_resume and transport shutdown ({n_runs} runs over {len(classes)} hook classes, {n_complete} completing)")
+    got = sorted(c for c, v in completing.items() if True in v)
+    ctx.check(got == sorted(TERMINAL), "R53.1", W, f"completion hooks: {got}",
               "exactly the response and the error hook end a replay: an earlier hook lets the next replay start too soon, a missing one hangs the queue",
-              desc="handle_hook: completion hooks = {HttpResponseHook, HttpErrorHook}")
+              desc=f"handle_hook: completion hooks = {{HttpResponseHook, HttpErrorHook}} among {len(classes)} hook classes")
 
 
 # ---------------------------------------------------------------------------------------------------
 # R53.2
 
 
-class _Obj:
-    def __init__(self, name):
-        self.name = name
-
-    def __repr__(self):
-        return f"<{self.name}>"
+def _cells(w):
+    ws = _lenient(Rec("WebSocketData", _name="websocket"))
+    cells = [("replayable", w.new_flow("plain"), False), ("live", w.new_flow("live", live=True), True), ("intercepted", w.new_flow("intercepted", intercepted=True), True),
+             ("no request", w.new_flow("norequest", request=None), True), ("websocket", w.new_flow("ws", websocket=ws), True)]
+    nc = w.new_flow("nocontent")
+    object.__setattr__(nc.request, "raw_content", None)
+    object.__setattr__(nc.request, "content", None)
+    cells.append(("no content", nc, True))
+    for impl in OTHER_FLOWS:
+        if w.model.exists(impl[0]) and w.model.has(*impl):
+            cells.append((f"not HTTP ({impl[1]})", w.new_flow(impl[1].lower(), impl=impl), True))
+    if len(cells) < 7:
+        raise AnalysisError("no non-HTTP flow class (TCPFlow / UDPFlow / DNSFlow) found: anchors vanished")
+    return cells
 
 
 def check_table(ctx):
-    fn = ctx.func(F, "ClientPlayback.check")
-    W = (F, "ClientPlayback.check", fn)
-    ps = params_of(fn)
-    ctx.require(len(ps) == 2, "ClientPlayback.check signature changed")
-    f = ps[1]
-    base = {"live": False, "inflight": False, "intercepted": False, "http": True, "request": True, "content": b"x", "websocket": None}
-    cells = [("replayable", {}, False), ("live", {"live": True}, True), ("in flight", {"inflight": True}, True), ("intercepted", {"intercepted": True}, True),
-             ("no request", {"request": None}, True), ("no content", {"content": None}, True), ("websocket", {"websocket": _Obj("ws")}, True), ("not HTTP", {"http": False}, True)]
+    fn = ctx.func(F, f"{ADDON}.check")
+    W = (F, f"{ADDON}.check", fn)
+    w = _World(ctx.model)
+    w.new_addon()
     bad = []
-    for name, delta, refused in cells:
-        c = dict(base, **delta)
-        flow = _Obj("flow")
-        chains = {f"{f}.live": c["live"], f"{f}.intercepted": c["intercepted"], f"{f}.request": _Obj("req") if c["request"] else None, f"{f}.request.raw_content": c["content"],
-                  f"{f}.request.content": c["content"], f"{f}.websocket": c["websocket"], "self.inflight": flow if c["inflight"] else None, "http.HTTPFlow": "HTTPFlow", "flow.Flow": "Flow"}
-        ev = PureEval("ClientPlayback.check", chains=chains, calls={"isinstance": lambda obj, cls, c=c: (c["http"] if cls == "HTTPFlow" else True)})
+    cells = _cells(w)
+    for name, fl, refused in cells:
         ctx.cells += 1
         try:
-            got = ev.call(fn, _Obj("self"), flow)
+            got = w.call(w.addon, "check", fl)
         except Raised as e:
             got = f"raises {e}"
         if refused and not (isinstance(got, str) and got):
             bad.append((name, got))
         if not refused and got is not None:
-            raise AnalysisError(f"ClientPlayback.check refuses a plain replayable flow ({got!r}): evaluation not understood")
+            raise AnalysisError(f"{ADDON}.check refuses a plain replayable flow ({got!r}): evaluation not understood")
+    ctx.functions |= w.functions
     for name, got in bad:
         ctx.fail("R53.2", W, f"check() admits a flow that is {name}", f"check returns {got!r}: such a flow would be queued for replay")
     if not bad:
-        ctx.ok("R53.2", "check(): live, in flight, intercepted, no request, no content, websocket, not HTTP are refused; the plain flow is admitted (8 cells)")
+        ctx.ok("R53.2", f"check(): live, intercepted, no request, no content, websocket, not HTTP are refused; the plain flow is admitted ({len(cells)} cells; the in-flight cell is decided in the playback run)")
 
 
-def check_start(ctx):
-    fn = ctx.func(F, "ClientPlayback.start_replay")
-    W = (F, "ClientPlayback.start_replay", fn)
-    loops = [s for s in stmts_of(fn) if isinstance(s, ast.For)]
-    ctx.require(len(loops) == 1 and isinstance(loops[0].target, ast.Name) and norm(loops[0].iter) == params_of(fn)[1], "start_replay: loop over the flows not found")
-    loop = loops[0]
-    fv = loop.target.id
-    errs = [n.targets[0].id for n in ast.walk(loop) if isinstance(n, ast.Assign) and isinstance(n.value, ast.Call) and call_name(n.value) == "self.check"
-            and [norm(a) for a in n.value.args] == [fv] and isinstance(n.targets[0], ast.Name)]
-    ctx.require(len(errs) == 1, "start_replay: `err = self.check(f)` not found")
-    aliases = {fv}
-    for n in ast.walk(loop):
-        if isinstance(n, ast.Assign) and isinstance(n.targets[0], ast.Name) and (norm(n.value) == fv or (isinstance(n.value, ast.Call) and call_name(n.value) == "cast" and norm(n.value.args[-1]) == fv)):
-            aliases.add(n.targets[0].id)
+def check_start_stop(ctx):
+    fs = ctx.func(F, f"{ADDON}.start_replay")
+    fp = ctx.func(F, f"{ADDON}.stop_replay")
+    WS, WP = (F, f"{ADDON}.start_replay", fs), (F, f"{ADDON}.stop_replay", fp)
 
-    def conds(e):
-        if isinstance(e, ast.Name) and e.id == errs[0]:
-            return ("refused", True)
-        if isinstance(e, ast.Compare) and isinstance(e.left, ast.Name) and e.left.id == errs[0] and len(e.ops) == 1 and isinstance(e.comparators[0], ast.Constant) and e.comparators[0].value is None:
-            return ("refused", isinstance(e.ops[0], ast.IsNot))
-        return None
+    # (a) a mixed submission: exactly the replayable flows are queued
+    w = _World(ctx.model)
+    w.new_addon()
+    cells = _cells(w)
+    more = w.new_flow("plain2")
+    sub = [cells[0][1]] + [c[1] for c in cells[1:4]] + [more] + [c[1] for c in cells[4:]]
+    want = [cells[0][1], more]
+    _guarded("start_replay", w.call, w.addon, "start_replay", list(sub))
+    ctx.cells += 1
+    ctx.functions |= w.functions
+    queued = list(w.queue.items)
+    extra = [f._name for f in queued if not any(f is x for x in want)]
+    missing = [f._name for f in want if not any(f is x for x in queued)]
+    if missing:
+        raise AnalysisError(f"start_replay does not queue the replayable flows {missing} (evaluation not understood)")
+    ctx.check(not extra and len(queued) == len(want), "R53.2", WS, "start_replay: a flow is queued although check() did not clear it",
+              f"submitting {[f._name for f in sub]} queues {[f._name for f in queued]}: a flow is queued although check() did not clear it",
+              desc=f"start_replay: of {len(sub)} submitted flows exactly the {len(want)} that check() admits are queued")
 
-    eng = StrictEngine(Ev(conds), lambda e: conds(e) is not None, "ClientPlayback.start_replay")
-    o = eng.block(loop.body, {State()}, 0)
-    trs = [s.trace for s in o.normal | o.cont | o.brk | o.ret]
-    ctx.paths += len(trs)
-    puts = [tr for tr in trs if any(e[0] == "call" and e[1] in ("self.queue.put_nowait", "self.queue.put") for e in tr)]
-    ctx.require(puts, "start_replay: no path queues a flow (shape not recognised)")
-    bad = None
-    for tr in puts:
-        p = index_of(tr, lambda e: e[0] == "call" and e[1] in ("self.queue.put_nowait", "self.queue.put"))
-        if tr[p][2] and tr[p][2][0] not in aliases:
-            raise AnalysisError(f"start_replay: queued object {tr[p][2][0]} is not the checked flow (not modelled)")
-        ck = index_of(tr, lambda e: e[0] == "call" and e[1] == "self.check")
-        if not (0 <= ck < p) or ("refused", False) not in tr[:p] or ("refused", True) in tr[:p]:
-            bad = bad or ("a flow is queued although check() did not clear it", tr)
-        bk = index_of(tr, lambda e: e[0] == "call" and e[1].endswith(".backup") and e[1].split(".")[0] in aliases)
-        first_touch = index_of(tr, lambda e: e[0] == "assign" and e[1].split(".")[0] in aliases and "." in e[1])
-        if bk < 0 or bk > p or (0 <= first_touch < bk):
-            bad = bad or ("the flow is modified / queued before backup(): stop_replay cannot restore its pre-replay state", tr)
-    ctx.check(not bad, "R53.2", W, f"start_replay: {bad[0] if bad else ''}", f"{bad[0] if bad else ''} (path {list(bad[1]) if bad else ''})",
-              desc=f"start_replay: queue only when check() is clear, backup() before the first modification ({len(puts)} queuing paths)")
-    check_backup_keeps(ctx, fn, loop, aliases)
-
-
-def check_backup_keeps(ctx, fn, loop, aliases):
-    """The snapshot start_replay takes must never replace an existing one (see module docstring)."""
-    W = (F, "ClientPlayback.start_replay", fn)
-    calls = [n for n in ast.walk(loop) if isinstance(n, ast.Call) and isinstance(n.func, ast.Attribute) and n.func.attr == "backup" and norm(n.func.value) in aliases]
-    if not calls:
-        return  # reported by check_start (no backup before queuing)
-    hit = ctx.model.method("mitmproxy/http.py", "HTTPFlow", "backup")
-    ctx.require(hit is not None, "HTTPFlow.backup does not resolve along the MRO")
-    bmod, bfn = hit
-    ctx.functions.add(f"{bmod.rel}::{getattr(bfn, '_qual', 'Flow.backup')}")
-    a = bfn.args
-    ctx.require(not a.vararg and not a.kwarg and not a.posonlyargs, "Flow.backup: *args/**kwargs signature not modelled")
-    names = [x.arg for x in a.args][1:]
-    defaults = dict(zip([x.arg for x in a.args][len(a.args) - len(a.defaults):], a.defaults))
-    defaults.update({x.arg: d for x, d in zip(a.kwonlyargs, a.kw_defaults) if d is not None})
-    bad = None
-    stores = 0
-    for c in calls:
-        ctx.require(not any(isinstance(x, ast.Starred) for x in c.args) and all(k.arg for k in c.keywords), f"start_replay: {norm(c)} unpacks arguments (not modelled)")
-        actual = dict(zip(names, c.args))
-        actual.update({k.arg: k.value for k in c.keywords})
-        bind = {}
-        for pn in names + [x.arg for x in a.kwonlyargs]:
-            v = actual.get(pn, defaults.get(pn))
-            bind[pn] = C(v.value) if isinstance(v, ast.Constant) else UNKNOWN
-        res, eng = traces_of(bfn, ESpec(keep=lambda e: e[0] == "assign" and e[1] == "self._backup"), bindings=bind)
-        ctx.paths += len(res)
-        for t, how, _ in res:
-            if any(e[0] == "assign" for e in t):
-                stores += 1
-                if fact([e for e in t if e[0] == "cond"], "self._backup") is not False:
-                    bad = bad or (norm(c), [e for e in t])
-    ctx.require(bad or stores, "Flow.backup never stores a snapshot (shape not recognised)")
-    ctx.check(not bad, "R53.2", W, f"start_replay: {bad[0] if bad else ''} may replace an existing backup",
-              f"as called here, Flow.backup stores a new snapshot on a path that did not establish that no backup exists (path {bad[1] if bad else ''}): a flow submitted again while it is "
-              "still queued gets its pre-replay snapshot overwritten by the prepared state (no response, is_replay set), so replay.client.stop cannot restore it",
-              desc=f"start_replay: {norm(calls[0])} keeps an existing snapshot (Flow.backup stores only when no backup exists; {stores} storing path(s))")
-
-
-def check_stop(ctx):
-    fn = ctx.func(F, "ClientPlayback.stop_replay")
-    W = (F, "ClientPlayback.stop_replay", fn)
-    loops = [s for s in stmts_of(fn) if isinstance(s, (ast.While, ast.For))]
-    ctx.require(len(loops) == 1 and isinstance(loops[0], ast.While), "stop_replay: drain loop not found")
-    loop = loops[0]
-    gets = [n for n in ast.walk(loop) if isinstance(n, ast.Call) and call_name(n) == "self.queue.get_nowait"]
-    ctx.require(len(gets) == 1 and isinstance(gets[0]._parent, ast.Assign) and isinstance(gets[0]._parent.targets[0], ast.Name), "stop_replay: `f = self.queue.get_nowait()` not found")
-    fv = gets[0]._parent.targets[0].id
-    always = isinstance(loop.test, ast.Constant) and loop.test.value is True
-    emptiness = norm(loop.test) in ("not self.queue.empty()", "self.queue.qsize()", "self.queue.qsize() > 0")
-    ctx.require(always or emptiness, f"stop_replay: loop condition not modelled: {norm(loop.test)}")
-    # every way out of the loop other than the queue being empty is a violation
-    early = []
-    for n in ast.walk(loop):
-        if isinstance(n, (ast.Break, ast.Return)):
-            cur, ok = n, False
-            while cur is not loop:
-                par = cur._parent
-                if isinstance(par, ast.ExceptHandler) and par.type is not None and last_attr(par.type) == "QueueEmpty":
-                    ok = True
-                cur = par
-            if not ok:
-                early.append(n)
-    ctx.check(not early, "R53.2", W, "stop_replay leaves the drain loop while flows may still be queued", "queued flows stay queued (and un-reverted) after replay.client.stop",
-              desc="stop_replay: only QueueEmpty ends the drain loop")
-    sp = Ev(raises=lambda st: ["QueueEmpty"] if any(isinstance(c, ast.Call) and call_name(c) == "self.queue.get_nowait" for c in ast.walk(st)) else [])
-    eng = StrictEngine(sp, lambda e: False, "ClientPlayback.stop_replay")
-    o = eng.block(loop.body, {State()}, 0)
-    trs = [s.trace for s in o.normal | o.cont | o.brk if any(e[0] == "call" and e[1] == "self.queue.get_nowait" for e in s.trace)]
-    ctx.paths += len(o.normal | o.cont | o.brk)
-    ctx.require(trs, "stop_replay: no path dequeues a flow")
-    ok = all(any(e[0] == "call" and e[1] == f"{fv}.revert" for e in tr) for tr in trs)
-    ctx.check(ok, "R53.2", W, "a dequeued flow is not reverted", "stop_replay must restore every still-queued flow to its pre-replay state (backup taken by start_replay)",
-              desc=f"stop_replay: every dequeued flow is reverted ({len(trs)} paths)")
+    # (b) / (c) start, then stop: every queued flow is back in its pre-replay state, also after a second submission
+    results = {}
+    for label, rounds in (("once", 1), ("twice", 2)):
+        w = _World(ctx.model)
+        w.new_addon()
+        flows = [w.new_flow(f"flow{i + 1}") for i in range(2)]
+        pre = [_freeze(f) for f in flows]
+        for _ in range(rounds):
+            _guarded("start_replay", w.call, w.addon, "start_replay", list(flows))
+        prepared = [_freeze(f) for f in flows]
+        n_q = len(w.queue.items)
+        _guarded("stop_replay", w.call, w.addon, "stop_replay")
+        post = [_freeze(f) for f in flows]
+        ctx.cells += 1
+        ctx.functions |= w.functions
+        results[label] = (flows, pre, prepared, post, n_q, len(w.queue.items), [e for e in w.log if e[0] == "get_nowait"])
+    flows, pre, prepared, post, n_q, left, gets = results["once"]
+    ctx.require(n_q == len(flows), f"start_replay queued {n_q} of {len(flows)} plain flows (evaluation not understood)")
+    d = [(f._name, _diff(a, b)) for f, a, b in zip(flows, pre, post) if a != b]
+    touched = [f._name for f, a, b in zip(flows, pre, prepared) if a != b]
+    reverted_none = all(a == b for a, b in zip(prepared, post)) and bool(touched)
+    if not d:
+        ctx.ok("R53.2", f"start_replay ; stop_replay: every queued flow is back in its pre-replay state (backup() before the first modification, revert() of each; {len(flows)} flows, prepared state differs for {touched})")
+    elif left or reverted_none:
+        pass  # stop_replay's fault: reported below
+    else:
+        ctx.fail("R53.2", WS, "start_replay: the flow is modified / queued before backup(): stop_replay cannot restore its pre-replay state",
+                 f"after start_replay ; stop_replay the flows differ from their pre-replay state in {d}: the snapshot was taken after a modification")
+    # stop_replay: drains everything, reverts each
+    drained = []
+    for n in (0, 1, 3):
+        w = _World(ctx.model)
+        w.new_addon()
+        fl = [w.new_flow(f"flow{i + 1}") for i in range(n)]
+        if n:
+            _guarded("start_replay", w.call, w.addon, "start_replay", list(fl))
+            ctx.require(len(w.queue.items) == n, "start_replay did not queue plain flows (evaluation not understood)")
+        _guarded("stop_replay", w.call, w.addon, "stop_replay")
+        ctx.cells += 1
+        drained.append((n, len(w.queue.items)))
+    stuck = [(n, k) for n, k in drained if k]
+    ctx.check(not stuck and not left, "R53.2", WP, "stop_replay leaves the drain loop while flows may still be queued",
+              f"(queued before, still queued after) = {stuck or [(n_q, left)]}: queued flows stay queued (and un-reverted) after replay.client.stop",
+              desc="stop_replay: the queue is empty afterwards (0, 1 and 3 queued flows)")
+    ctx.check(bool(left) or not (d and reverted_none), "R53.2", WP, "a dequeued flow is not reverted",
+              f"stop_replay dequeues {[e[1]._name for e in gets]} but leaves them in the prepared state (differences to the pre-replay state: {d}): stop_replay must restore every still-queued flow (backup taken by start_replay)",
+              desc=f"stop_replay: every dequeued flow is reverted ({len(gets)} flows)")
+    # the snapshot start_replay takes must never replace an existing one
+    flows2, pre2, _, post2, n_q2, left2, _ = results["twice"]
+    d2 = [(f._name, _diff(a, b)) for f, a, b in zip(flows2, pre2, post2) if a != b]
+    ctx.check(bool(d) or bool(left2) or not d2, "R53.2", WS, "start_replay: backup() may replace an existing backup",
+              f"a flow submitted again while it is still queued ({n_q2} queue entries for {len(flows2)} flows) does not return to its pre-replay state on stop_replay (differences: {d2}): as called here, "
+              "Flow.backup stores a new snapshot although one exists, so the pre-replay snapshot is overwritten by the prepared state (no response, is_replay set) and replay.client.stop cannot restore it",
+              desc="start_replay twice ; stop_replay: the second backup() keeps the first (pre-replay) snapshot, the flows return to their pre-replay state")
 
 
 def check(ctx):
     ctx.rule("R53.1", "concurrency 1: dequeue -> await replay -> task_done, inflight published; replay() waits for done; done is set exactly on the response / error "
              "hook after the hook ran and transports were closed")
     ctx.rule("R53.2", "check() refuses every unreplayable class; start_replay queues only cleared flows after backup(); stop_replay drains the whole queue and reverts each flow")
-    check_playback(ctx)
-    check_handler(ctx)
+    pw = check_playback(ctx)
+    check_handler(ctx, pw)
     check_table(ctx)
-    check_start(ctx)
-    check_stop(ctx)
-    ctx.assume("asyncio.Queue is FIFO; awaiting a coroutine runs it to completion before the next statement")
+    check_start_stop(ctx)
+    ctx.assume("asyncio.Queue is FIFO; awaiting a coroutine runs it to completion before the next statement; tasks run when the current one suspends")
+    ctx.assume("Flow.get_state / set_state snapshot and restore the flow faithfully (C40); the proxy core delivers hooks only after Start and ends a replay with a response or an error hook (C03)")
+    ctx.bounds.append("3 queued flows per playback world; one hook per handle_hook world; submissions of 2-9 flows")
     if not ctx.findings:
         ctx.expect_instances("R53.1", 6)
-        ctx.expect_instances("R53.2", 5)
+        ctx.expect_instances("R53.2", 6)
 
 
 MUTANTS = [
@@ -442,6 +1272,10 @@ MUTANTS = [
     Mutant("resume-awaited-only-for-intermediate-hooks", F, "        if isinstance(data, flow.Flow):\n            await data.wait_for_resume()\n        if isinstance(hook, (layers.http.HttpResponseHook, layers.http.HttpErrorHook)):\n",
            "        if isinstance(hook, (layers.http.HttpResponseHook, layers.http.HttpErrorHook)):\n            pass\n        elif isinstance(data, flow.Flow):\n            await data.wait_for_resume()\n"
            "        if isinstance(hook, (layers.http.HttpResponseHook, layers.http.HttpErrorHook)):\n", "R53.1"),
+    Mutant("only-one-transport-closed", F, "                for x in self.transports.values():\n                    if x.handler:\n                        x.handler.cancel()\n",
+           "                for x in self.transports.values():\n                    if x.handler:\n                        x.handler.cancel()\n                        break\n", "R53.1"),
+    Mutant("inflight-never-cleared", F, "            self.queue.task_done()\n            self.inflight = None\n", "            self.queue.task_done()\n", "R53.1"),
+    Mutant("loop-ends-after-first-flow", F, "            self.queue.task_done()\n            self.inflight = None\n", "            self.queue.task_done()\n            self.inflight = None\n            return\n", "R53.1"),
     # seed C53b: the pre-replay snapshot is replaced when a queued flow is submitted again
     Mutant("replay-backup-forced", "mitmproxy/flow.py", "    def backup(self, force=False):\n        \"\"\"\n        Save a backup of this flow, which can be restored by calling `Flow.revert()`.\n        \"\"\"\n        if not self._backup:\n",
            "    def backup(self, force=True):\n        \"\"\"\n        Save a backup of this flow, which can be restored by calling `Flow.revert()`.\n        \"\"\"\n        if force or not self._backup:\n", "R53.2"),
